@@ -315,6 +315,36 @@ func (st sqlStyle) stmt(s Stmt) string {
 	panic("stmt kind " + s.Kind)
 }
 
+// scriptInlineKeys renders createIndex statements that directly follow their createTable as inline KEY / UNIQUE KEY
+// clauses of that CREATE TABLE (MySQL), the way a hand-written schema often declares them
+func (st sqlStyle) scriptInlineKeys(ss []Stmt) string {
+	var out []string
+	for i := 0; i < len(ss); i++ {
+		s := ss[i]
+		if s.Kind != "createTable" {
+			out = append(out, st.stmt(s))
+			continue
+		}
+		var keys []string
+		j := i + 1
+		for j < len(ss) && ss[j].Kind == "createIndex" && ss[j].T == s.T && ss[j].Using == "" {
+			k := st.kw("KEY")
+			if ss[j].Unique {
+				k = st.kw("UNIQUE KEY")
+			}
+			keys = append(keys, "  "+k+" "+st.id(ss[j].A)+" ("+st.ids(ss[j].Pk)+")")
+			j++
+		}
+		txt := st.stmt(s)
+		if len(keys) > 0 {
+			txt = strings.TrimSuffix(txt, "\n);") + ",\n" + strings.Join(keys, ",\n") + "\n);"
+		}
+		out = append(out, txt)
+		i = j - 1
+	}
+	return strings.Join(out, "\n")
+}
+
 func (st sqlStyle) script(ss []Stmt) string {
 	out := make([]string, len(ss))
 	for i := range ss {
